@@ -64,6 +64,7 @@ macro_rules! impl_arith_for_datavalue {
                 use DataValue::*;
                 match (self, rhs) {
                     (&Null, _) | (_, &Null) => Null,
+                    (&Int16(x), &Int16(y)) => Int16(x.$name(y)),
                     (&Int32(x), &Int32(y)) => Int32(x.$name(y)),
                     (&Int64(x), &Int64(y)) => Int64(x.$name(y)),
                     (&Float64(x), &Float64(y)) => Float64(x.$name(y)),
